@@ -130,6 +130,9 @@ def classify_crash(stderr_text):
         head = stderr_text.split("\n\ngoroutine 1 ")[0]
         if LIB not in head:
             return "toolchain", "go-runtime-crash " + (re.search(r"^runtime\.[^\n(]+", head, re.M).group(0) if re.search(r"^runtime\.[^\n(]+", head, re.M) else "?"), head[:1500]
+    if "ThreadSanitizer: CHECK failed" in stderr_text:
+        # an internal assertion of the race detector's runtime, not a report about the program
+        return "toolchain", "race-detector-runtime-check-failed", stderr_text[:1500]
     m = re.search(r"^(panic: .*|fatal error: .*)$", stderr_text, re.M)
     if m:
         msg = m.group(1)
